@@ -43,7 +43,8 @@ class WallClock:
 def install_wall(*modules):
     """put one WallClock in place of `time` in every given module that imports it; returns (clock, restore)"""
     w = WallClock()
-    saved = [(m, m.time) for m in modules if hasattr(m, "time")]
+    # (with several connections on one loop the installs nest: always restore the REAL module)
+    saved = [(m, m.time._t if isinstance(m.time, WallClock) else m.time) for m in modules if hasattr(m, "time")]
     for m, _ in saved:
         m.time = w
 
